@@ -83,6 +83,9 @@ def code_for_number_token(name, value, location):
     try:
         # Note: base 0 automatically handles prefixes like 0x.
         result = int(value, 0)
+        # Refuse numbers Python cannot convert back to decimal text (see ``sys.set_int_max_str_digits()``), for
+        # example a hexadecimal number with thousands of digits, because they cannot be shown or compared by length.
+        str(result)
     except ValueError:
         raise errors.InterfaceError(
             "numeric value for %s must be an integer number but is: %s" % (name, _compat.text_repr(value)), location
